@@ -1,6 +1,6 @@
 # C12 - scheduler: never early, in deadline order, cancel hits exactly its target
 import re
-from ..core import norm, relloc, live, calls, evs, Broken, value_origin, Tracer, fmt_trace, rooted, has_back_edge, cond_event, efield, pos
+from ..core import norm, relloc, live, calls, evs, Broken, value_origin, Tracer, fmt_trace, rooted, has_back_edge, cond_event, efield, pos, tests
 from .. import locks
 from ..rules import *
 from .tables import GUARDED
@@ -12,7 +12,7 @@ EXPLANATION = ('Static analysis of scheduler: the heap of sleepers is mutated on
                'computing the next deadline until it waits on it (no lost wake-up window); no function is called with the mutex held that locks it again; cancel resolves the '
                'removed promise exactly once, after the lock is released, and reports true exactly then; the stop callback of interval() cancels the identifier the sleeps are '
                'scheduled with; pending sleepers are promise<void> values inside the heap (destruction cancels them); all heap accesses are under the mutex. Undecided: timing '
-               'itself (never-early / prompt wake-up as measured time), that cancel matches a live rather than an already cancelled entry with the same identifier.')
+               'itself (never-early / prompt wake-up as measured time); which of several live entries with one identifier a cancel picks.')
 ASSUMPTIONS = ['std::push_heap / std::pop_heap maintain a binary heap w.r.t. the comparator', 'std::condition_variable semantics']
 
 S = 'cocls::scheduler::_scheduled'
@@ -29,6 +29,7 @@ def run(ctx, db, tier):
     la = locks.check_guarded(ctx, db, 'C12.locks', {S: GUARDED[S]}, ['cocls::scheduler'], per_instance=False, floor=8)
     locks.check_no_relock(ctx, db, 'C12.no-relock', la, ['cocls::scheduler'], floor=3)
     cancel(ctx, db)
+    cancel_finds_live(ctx, db)
     interval_ident(ctx, db)
     by_value(ctx, db)
     destructor_joins(ctx, db)
@@ -401,6 +402,73 @@ def cancel(ctx, db):
         hm = la.held_map(g)
         evl = [e for e in g.events() if e.k in ('call', 'read', 'write') and norm(e.get('field') or '') == S]
         ctx.ob(rid, g, g['key'], bool(evl) and all(hm.get(e['id']) for e in evl), 'remove() touches the heap only under its lock', desc='remove touches the heap unlocked')
+
+
+def cancel_finds_live(ctx, db):
+    """cancelled entries stay in the heap with an empty promise until they surface, and they keep their identifier: whoever looks an entry up by
+    identifier and leaves it in the heap must consider entries with a live promise only, otherwise a stale entry shadows a pending sleep that
+    re-uses the identifier (cancel reports false, the sleep stays pending)"""
+    rid = ctx.rule('C12.cancel-finds-live-entry', 'GUARDED', 'scheduler::remove (its loops, helpers and search predicates): on every path on which an entry is matched by identifier, the entry '
+                   'either leaves the heap on that path (pop_item), or its promise was tested non-empty in the same evaluation, or its identifier is overwritten when the promise is taken: '
+                   'an already cancelled entry never shadows a pending sleep with the same identifier', floor=2)
+    T = htracer(db, extra=lambda caller, ev, callee: callee['nname'] == 'cocls::scheduler::pop_item')
+    PB = ('cocls::promise::operator bool', 'cocls::promise::operator!')
+    n = 0
+    for f in db.need('cocls::scheduler::remove')[:1]:
+        sites = {}
+        for tr in T.traces(f):
+            if not live(tr):
+                continue
+            for i, it in enumerate(tr):
+                if it.k != 'cmp':
+                    continue
+                side = next((x for x in (it.get('lhs'), it.get('rhs')) if x and re.search(r'(\.|->)_ident$', x)), None)
+                if side is None:
+                    continue
+                obj = re.sub(r'(\.|->)_ident$', '', side)
+                # the evaluation this comparison belongs to: the enclosing expanded callee (search predicate) or, at top level, up to the next comparison / the exit
+                depth = 0; lo = 0
+                for j in range(i - 1, -1, -1):
+                    if tr[j].k == 'leave':
+                        depth += 1
+                    elif tr[j].k == 'enter':
+                        if depth == 0:
+                            lo = j; break
+                        depth -= 1
+                depth = 0; hi = len(tr); inner = lo > 0
+                for j in range(i + 1, len(tr)):
+                    if tr[j].k == 'enter':
+                        depth += 1
+                    elif tr[j].k == 'leave':
+                        if depth == 0 and inner:
+                            hi = j; break
+                        depth -= 1
+                    elif not inner and tr[j].k == 'cmp' and any(x and re.search(r'(\.|->)_ident$', x) for x in (tr[j].get('lhs'), tr[j].get('rhs'))):
+                        hi = j; break
+                # decided false on this path: nothing matched here
+                br = next((b for b in tr[i + 1:hi] if tests(b, it)), None)
+                if br is not None and not br.val:
+                    continue
+                n += 1
+                # only paths that go on to take a promise out of an entry matter (a search that ends without a hit takes nothing)
+                def mentions_p(x):
+                    return any(re.search(r'(\.|->)_p\b', t or '') for t in [x.get('path'), x.get('recv')] + [a.get('path') for a in (x.get('args') or [])])
+                if not any(mentions_p(x) for x in tr[i + 1:] if x.k in ('call', 'construct', 'return', 'decl', 'read')):
+                    continue
+                seg = tr[lo:hi]
+                tested = any(c.k == 'call' and norm(c.get('callee') or '') in PB and (c.get('recv') or '').startswith(obj) for c in seg)
+                popped = (not inner) and any(c.k == 'call' and op(c) in ('pop_back', 'pop_heap') for c in tr[i:hi])
+                wiped = any(w.k == 'write' and re.search(r'(\.|->)_ident$', w.get('path') or '') for w in tr[i:])
+                ok = tested or popped or wiped
+                key = (it.get('fn'), it.get('depth'), it.get('id'))
+                if key not in sites or (sites[key][0] and not ok):
+                    sites[key] = (ok, it, tr)
+        for key, (ok, it, tr) in sorted(sites.items(), key=lambda kv: str(kv[0])):
+            ctx.ob(rid, f, relloc(it.get('loc')) if it.get('loc') else f['key'], ok, 'an entry matched by identifier is removed, or was tested live',
+                   desc=None if ok else 'scheduler::remove matches an entry by identifier without testing that its promise is still there and leaves it in the heap: an entry cancelled earlier '
+                   '(empty promise, same identifier) shadows a pending sleep - cancel reports false and the sleep is never cancelled', trace=fmt_trace(tr) if not ok else None)
+    if n < 2:
+        raise Broken('scheduler::remove: the identifier comparisons (top loop and search) were not found')
 
 
 def interval_ident(ctx, db):
